@@ -1,13 +1,16 @@
 (* C15 — Malformed input is reported as an error and never compiled silently.
    PARTIAL: proved on the models: characters that belong to no token are rejected by the lexer in every state outside an
    interpolated string, with the 1-based line counted through any gap (blank runs, LF / CR / CRLF runs, block and line
-   comments) and through multi-line strings; a reference to an undefined variable makes the evaluator fail. Errors that only
-   the LALR parser can see (unbalanced braces, open string at end of input, missing brace or colon) are decided by the
-   correspondence on every single corruption of generated programs (harness/props/c15.py). *)
+   comments) and through multi-line strings; a reference to an undefined variable makes the evaluator fail; the reference
+   parser of the model pipeline (coq/Model/Parse.v) accepts only brace-balanced token streams, needs the colon of a
+   declaration and rejects an open string. The real LALR parser is not modelled: its detection of these errors is decided by
+   the correspondence on every single corruption of generated programs, which also compares the model pipeline's verdict
+   with the real compiler's (harness/props/c15.py). *)
 From Coq Require Import String.
 From Coq Require Import List Ascii Bool NArith.
 Require Import Model.Text Model.ParamTypes Gen.Params Model.Lex Proofs.LexProofs.
 Require Import Model.Ast Model.Scope Model.Eval Proofs.ScopeProofs.
+Require Import Model.Parse Proofs.ParseProofs.
 Import ListNotations.
 Open Scope char_scope.
 
@@ -40,6 +43,23 @@ Theorem C15_undefined_variable :
     eval_value (S fuel) sc (VVar x :: rest) = RError $"SyntaxError" ($"Unknown variable " ++ x).
 Proof. exact unbound_is_error. Qed.
 Print Assumptions C15_undefined_variable.
+
+(* on the reference parser (coq/Model/Parse.v, the parser of the model pipeline): every token stream it accepts has balanced
+   braces -- a block left open at the end of input and a stray closing brace are never compiled *)
+Theorem C15_accepted_is_balanced : forall ts ns, parse_tokens ts = POk ns -> bal 0 (map (fun t => (tk_type t, tk_val t)) ts) = true.
+Proof. exact accepted_is_balanced. Qed.
+Print Assumptions C15_accepted_is_balanced.
+
+(* a declaration whose property name is not followed by a colon is rejected; so is a string that is still open when the
+   tokens end *)
+Theorem C15_declaration_needs_colon : forall f rec t c r1,
+  is_ty ($"t_colon") c = false -> is_ty ($"t_ws") c = false -> exists w, p_decl f rec t (c :: r1) = PSyntax w.
+Proof. exact declaration_needs_colon. Qed.
+Print Assumptions C15_declaration_needs_colon.
+Theorem C15_open_string_rejected : forall ts, forallb (fun t => is_ty ($"css_string") t || is_ty ($"less_variable") t) ts = true ->
+  exists w, istring_parts ts = PSyntax w.
+Proof. exact open_string_rejected. Qed.
+Print Assumptions C15_open_string_rejected.
 
 Example C15_example :
   tokens_raw ($".a{" ++ ["010"] ++ $"/* x" ++ ["010"] ++ $"*/ color:" ++ ["013"; "010"] ++ $"$red}")
